@@ -192,7 +192,7 @@ Proof.
   exists fr. split; [exact Hw|]. apply frame_roundtrip; assumption.
 Qed.
 
-(* the model's own limit table admits every well-formed message at its longest ... *)
+(* the model's own limit table accommodates every well-formed message at its longest ... *)
 Theorem max_wf_le_limit : forall k pver ebs n,
   max_wf_payload_len k pver = Some n -> n <= max_payload k pver ebs.
 Proof.
